@@ -436,6 +436,9 @@ impl<'a> StdVals<'a> {
 #[derive(Clone, Debug)]
 struct Disagreement {
     kind: &'static str,
+    /// "impl": a concrete failing input on the implementation; "model-table": evidence is the Lean
+    /// driver's `rows`/`borrows` evaluation of the generated table; "model": model-internal check
+    source: &'static str,
     op: String,
     expected: String,
     observed: String,
@@ -482,12 +485,12 @@ impl Cx {
                 *n += 1;
                 if size < d.size {
                     let (op, expected, observed) = mk();
-                    *d = Disagreement { kind, op, expected, observed, size };
+                    *d = Disagreement { kind, source: source_of(kind, label, opname), op, expected, observed, size };
                 }
             }
             None => {
                 let (op, expected, observed) = mk();
-                per.insert(label.to_string(), (Disagreement { kind, op, expected, observed, size }, 1));
+                per.insert(label.to_string(), (Disagreement { kind, source: source_of(kind, label, opname), op, expected, observed, size }, 1));
             }
         }
     }
@@ -498,6 +501,16 @@ impl Cx {
         let mut v: Vec<(&Disagreement, u64)> = self.disagreements.values().flat_map(|m| m.values().map(|(d, n)| (d, *n))).collect();
         v.sort_by(|a, b| (a.0.size, &a.0.op).cmp(&(b.0.size, &b.0.op)));
         v
+    }
+}
+
+/// Where the evidence of a disagreement comes from (see `Disagreement::source`).
+fn source_of(kind: &str, label: &str, opname: &str) -> &'static str {
+    match (kind, label, opname) {
+        (_, "Gen.CmpImpls", "rowOk") => "model-table",
+        ("impl-vs-model", _, "borrow") => "model-table",
+        (_, "model", "hashloop") => "model",
+        _ => "impl",
     }
 }
 
@@ -1113,6 +1126,42 @@ fn make_pool(tier: &str, seed: u64) -> (Vec<Vec<u8>>, usize, Vec<(usize, usize)>
             pool.push(t);
         }
     }
+    // Strings that tell exact comparisons from lossy / normalising ones:
+    // * valid UTF-8 containing U+FFFD (what `to_string_lossy` turns an invalid byte into), to be paired
+    //   with the non-UTF-8 strings above (`80`, `61 80`, `80 2f`, heap-sized ones ending in `80`):
+    //   `OsStr(b"\x80") == HipStr("\u{FFFD}")` must be false;
+    // * case variants (`"A"` vs `"a"`), and a trailing NUL (`"a\0"` vs `"a"`).
+    // Every Hip × std block runs over all ordered pairs of the pool, so these meet every impl in
+    // which one side can hold non-UTF-8 (`[u8]`/`OsStr`/`Path`/`BStr` families) and the other is str-like.
+    let fffd = "\u{FFFD}".as_bytes();
+    let mut extra: Vec<Vec<u8>> = vec![
+        fffd.to_vec(),
+        [b"a", fffd].concat(),
+        [fffd, b"/"].concat(),
+        [fffd, fffd].concat(),
+        [b"/", fffd].concat(),
+        b"A".to_vec(),
+        b"B".to_vec(),
+        b"Ab".to_vec(),
+        b"aB".to_vec(),
+        b"A/".to_vec(),
+        b"\0".to_vec(),
+        b"a\0".to_vec(),
+        b"a\0/".to_vec(),
+        b"a ".to_vec(),
+    ];
+    for p in [&p1, &p2] {
+        extra.push([&p[..], fffd].concat()); // lossy image of `p ++ 80`
+        extra.push([&p[..], b"\0"].concat());
+    }
+    extra.push(vec![b'A'; 24]); // case variant of the heap-sized `p1`
+    extra.push([&[0x80u8][..], &p1[..]].concat()); // invalid byte first, heap-sized
+    extra.push([fffd, &p1[..]].concat());
+    for s in extra {
+        if !pool.contains(&s) {
+            pool.push(s);
+        }
+    }
     // seeded random strings over the same alphabet (lengths 4..=40)
     let mut rng = hipverif_harness::util::Rng::new(seed);
     let n_random = if tier == "thorough" { 60 } else { 10 };
@@ -1382,14 +1431,14 @@ fn real_main(cli: &hipverif_harness::util::Cli) -> Result<i32, String> {
     let n_groups = all.len();
     let disagreements: Vec<Value> = all
         .iter()
-        .map(|(d, n)| json!({"kind": d.kind, "input": [d.op], "expected": d.expected, "observed": d.observed, "count": n,
+        .map(|(d, n)| json!({"kind": d.kind, "source": d.source, "input": [d.op], "expected": d.expected, "observed": d.observed, "count": n,
                              "profile": if cfg!(debug_assertions) { "debug" } else { "release" }}))
         .collect();
-    let first: Vec<String> = all.iter().take(20).map(|(d, n)| format!("DISAGREEMENT {} x{n}: {} expected={} observed={}", d.kind, d.op, d.expected, d.observed)).collect();
+    let first: Vec<String> = all.iter().take(20).map(|(d, n)| format!("DISAGREEMENT {} source={} x{n}: {} expected={} observed={}", d.kind, d.source, d.op, d.expected, d.observed)).collect();
     let stats = json!({
         "evaluations": cx.evaluations,
         "distinct_nontrivial": cx.distinct.len(),
-        "rule": "exhaustive ordered pairs of byte strings of length <= 3 over {a,b,/,.,0x80} (0x80 dropped for str-typed operands) plus heap-sized strings with common prefixes plus seeded random strings (len 4..40); every comparison impl (Hip x Hip all backend pairs, Hip x std both orders) x representations; ==, !=, partial_cmp, <,<=,>,>=, cmp; recording-Hasher streams; Borrow laws and HashMap/BTreeMap lookups through every Borrow impl",
+        "rule": "exhaustive ordered pairs of byte strings of length <= 3 over {a,b,/,.,0x80} (0x80 dropped for str-typed operands) plus heap-sized strings with common prefixes plus U+FFFD / case-variant / trailing-NUL strings (lossy or normalising comparisons) plus seeded random strings (len 4..40); every comparison impl (Hip x Hip all backend pairs, Hip x std both orders) x representations; ==, !=, partial_cmp, <,<=,>,>=, cmp; recording-Hasher streams; Borrow laws and HashMap/BTreeMap lookups through every Borrow impl",
         "exhaustive": true,
         "tier": cli.tier,
         "seed": cli.seed,
